@@ -26,9 +26,15 @@ impl Case {
     }
     fn push(&mut self, d: &[u8]) {
         if self.dead { return; }
-        self.tree.push_leaf(d);
-        self.cur.push(d.to_vec());
         self.ops.push(format!("push {}", hex(d)));
+        let t = &mut self.tree;
+        if guarded(|| t.push_leaf(d)).is_none() {
+            // (a push has no output of its own; a panicking one is reported in its place)
+            self.outs.push("push=panic".into());
+            self.dead = true;
+            return;
+        }
+        self.cur.push(d.to_vec());
     }
     fn root(&mut self) -> Option<Vec<u8>> {
         if self.dead { return None; }
@@ -287,6 +293,22 @@ pub fn run(ctx: &Ctx) {
         c.emit(&mut out);
     }
 
+    // (e) every leaf LENGTH 0..=300 and around 1 KiB / 1500 (three consecutive lengths per batch, random bytes): the
+    // tree hashes "arbitrary leaf bytes" (seeded change C04-r10: a stack buffer for short inputs panicked for a
+    // 129-byte leaf only)
+    {
+        let mut lens: Vec<usize> = (0..=300).step_by(3).collect();
+        lens.extend([1020usize, 1023, 1498]);
+        for (k, &l0) in lens.iter().enumerate() {
+            if k as u64 % nshards != shard { continue; }
+            for &v in &versions {
+                let leaves: Vec<Vec<u8>> = (0..3).map(|j| r.bytes(l0 + j)).collect();
+                let mut c = Case::new(v);
+                batch(&mut c, &mut r, &leaves, &[0, 1, 2], false);
+                c.emit(&mut out);
+            }
+        }
+    }
     // (d) misuse sequences (outside the property; they validate the model's panic/in-place semantics)
     if shard == 0 {
         for &v in &versions {
